@@ -683,5 +683,108 @@ theorem qOf_len (m ev t : Nat) (q : List QE) :
     List.length_singleton, qv, ne_eq, List.map_eq_nil_iff]
   cases q.filter (fun e => e.1 = m) <;> simp
 
+/-- the model of the awaited trigger has a session (the innermost one or an enclosing one): the call returns True at
+once and the entry is appended to that session -/
+theorem deferred_syn (fin0 d : Nat) (below0 : List Q) (x : Ctx) (f : Bool) (σ : Q) (below : List Q) (ms : MS) (s : St)
+    (m ev : Nat) (hp : ms.pend = none) (hst : ms.stack = σ :: below) (hT : SynT d below0 x f σ below s)
+    (hbusy : qv m s.queue ≠ []) (s2 : St) (hq2 : s2.queue = s.queue ++ [(m, ev, s.nextTag)])
+    (hn2 : s2.nextTag = s.nextTag + 1) :
+    ∃ ms', run fin0 ms [.api 0 s.nextTag m ev, .ret s.nextTag true] = some ms' ∧ SynM d below0 x f ms' s2 := by
+  have htags : TagsOK s2 := hT.tags.push m ev hq2 hn2
+  by_cases hmx : m = x.model
+  · subst hmx
+    have hb : busyIn x.model ms.stack = true := by
+      rw [busyIn_iff, hst]; simp [hT.modelOf_top]
+    have hd : defer s.nextTag x.model ms.stack = some ({ σ with q := σ.q ++ [(s.nextTag, x.model)] } :: below) := by
+      rw [hst]; simp [defer, hT.modelOf_top]
+    refine ⟨_, adv_deferred fin0 ms _ _ ev _ hp hb hd, rfl, _, _, rfl, ⟨hT.owner, ?_, htags, ?_, hT.fin, ?_⟩⟩
+    · rw [hq2, qv_append_same, head?_append_of_ne _ hT.top_ne_nil]; exact hT.head
+    · rw [hq2, qv_append_same, hT.rel]
+    · rw [hq2]
+      refine hT.low.frame_top (fun m' h' => qv_append_other ev _ _ h') ?_
+      intro e he
+      rcases List.mem_append.mp he with h1 | h1
+      · exact Or.inl h1
+      · simp at h1; subst h1; exact Or.inr rfl
+  · have hmem : some m ∈ below.map modelOf := hT.busy_of_ne_nil hbusy hmx
+    have hb : busyIn m ms.stack = true := by
+      rw [busyIn_iff, hst]; exact List.mem_cons_of_mem _ hmem
+    obtain ⟨below', hd', hext, hmap, hsync⟩ := defer_below s.nextTag m ev s.queue below hmem hT.low.sync
+      (List.nodup_cons.mp hT.low.nodup).2
+    have hne : ¬ modelOf σ = some m := by
+      rw [hT.modelOf_top]; intro h; cases h; exact hmx rfl
+    have hd : defer s.nextTag m ms.stack = some (σ :: below') := by
+      rw [hst]; simp [defer, hne, hd']
+    have hxm : x.model ≠ m := fun h => hmx h.symm
+    refine ⟨_, adv_deferred fin0 ms _ _ ev _ hp hb hd, rfl, _, _, rfl, ⟨hT.owner, ?_, htags, ?_, hT.fin, ?_⟩⟩
+    · rw [hq2, qv_append_other ev _ _ hxm]; exact hT.head
+    · rw [hq2, qv_append_other ev _ _ hxm]; exact hT.rel
+    · rw [hq2]
+      refine ⟨hT.low.ext.trans hext, hsync, by rw [hmap]; exact hT.low.nodup, ?_⟩
+      intro e he
+      rw [hmap]
+      rcases List.mem_append.mp he with h1 | h1
+      · exact hT.low.cover e h1
+      · simp at h1; subst h1; exact Or.inr hmem
+
+/-- the model of the awaited trigger has no session: one is opened on top of the stack, and the engine starts
+draining that model's queue -/
+theorem nested_pre (fin0 d : Nat) (below0 : List Q) (x : Ctx) (f : Bool) (σ : Q) (below : List Q) (ms : MS) (s : St)
+    (m ev : Nat) (hp : ms.pend = none) (hst : ms.stack = σ :: below) (hT : SynT d below0 x f σ below s)
+    (hidle : qv m s.queue = []) (s2 : St) (hq2 : s2.queue = s.queue ++ [(m, ev, s.nextTag)])
+    (hn2 : s2.nextTag = s.nextTag + 1) :
+    ∃ ms1, run fin0 ms [.api 0 s.nextTag m ev] = some ms1 ∧ DrainPreM s.nextTag (σ :: below) m ms1 s2 := by
+  have hnb : some m ∉ (σ :: below).map modelOf := fun h => hT.busy_ne_nil h hidle
+  have hb : busyIn m ms.stack = false := by
+    rw [← Bool.not_eq_true, busyIn_iff, hst]; exact hnb
+  have hmx : x.model ≠ m := by
+    intro h; subst h; exact hT.top_ne_nil hidle
+  refine ⟨_, adv_open fin0 ms _ m ev hp hb, rfl, _, _, by rw [hst], rfl, hT.tags.push m ev hq2 hn2, ?_, Or.inl ⟨?_, rfl, ?_⟩⟩
+  · rw [hq2]
+    refine ⟨Ext.refl _, ?_, List.nodup_cons.mpr ⟨hnb, ?_⟩, ?_⟩
+    · intro σ1 h1
+      rcases List.mem_cons.mp h1 with h2 | h2
+      · rw [h2]
+        exact ⟨x.model, hT.modelOf_top, by rw [qv_append_other ev _ _ hmx]; exact hT.rel⟩
+      · refine (hT.low.sync σ1 h2).frame ?_
+        intro m' hm'
+        refine qv_append_other ev _ _ ?_
+        intro hmm
+        rw [hmm] at hm'
+        exact hnb (List.mem_cons_of_mem _ (List.mem_map.mpr ⟨σ1, h2, hm'⟩))
+    · simp only [List.map_cons, hT.modelOf_top]; exact hT.low.nodup
+    · intro e he
+      rcases List.mem_append.mp he with h1 | h1
+      · refine Or.inr ?_
+        simp only [List.map_cons, hT.modelOf_top, List.mem_cons, Option.some.injEq]
+        exact hT.low.cover e h1
+      · simp at h1; subst h1; exact Or.inl rfl
+  · rw [hq2, qv_append_same, hidle]; rfl
+  · rw [hq2, qv_append_same, hidle]; simp
+
+/-- the nested session has drained its queue: its call returns True and the enclosing session goes on -/
+theorem nested_ok (fin0 d : Nat) (below0 : List Q) (x : Ctx) (f : Bool) (σ : Q) (below : List Q) (s : St)
+    (hT : SynT d below0 x f σ below s) (t m : Nat) (ms3 : MS) (s3 s4 : St) (hd : DoneOk t (σ :: below) m ms3 s3)
+    (hq4 : s4.queue = s3.queue) (hn4 : s4.nextTag = s3.nextTag) :
+    ∃ ms', run fin0 ms3 [.ret t true] = some ms' ∧ SynM d below0 x f ms' s4 := by
+  obtain ⟨hp3, σ3, stk, hs3, ho3, hf3, hl3, _, htags3, hLD⟩ := hd
+  obtain ⟨σ', below', rfl, ho, hf, hrel, hhead, hlow⟩ := hT.resume hLD
+  refine ⟨_, ho3 ▸ adv_close fin0 ms3 σ3 _ hp3 hs3 hl3 hf3, rfl, σ', below', rfl, ⟨ho, ?_, htags3.frame hq4 hn4, ?_, hf, ?_⟩⟩
+  · rw [hq4]; exact hhead
+  · rw [hq4]; exact hrel
+  · rw [hq4]; exact hlow
+
+/-- the nested session has raised: its call raises and the exception reaches the awaiting callback -/
+theorem nested_err (fin0 d : Nat) (below0 : List Q) (x : Ctx) (f : Bool) (σ : Q) (below : List Q) (s : St)
+    (hT : SynT d below0 x f σ below s) (t m : Nat) (e : Exc) (ms3 : MS) (s3 s4 : St)
+    (hd : DoneErr t (σ :: below) m ms3 s3) (hq4 : s4.queue = s3.queue) (hn4 : s4.nextTag = s3.nextTag) :
+    ∃ ms', run fin0 ms3 [.raised t e] = some ms' ∧ SynM d below0 x f ms' s4 := by
+  obtain ⟨hp3, σ3, stk, hs3, ho3, _, htags3, hLD⟩ := hd
+  obtain ⟨σ', below', rfl, ho, hf, hrel, hhead, hlow⟩ := hT.resume hLD
+  refine ⟨_, ho3 ▸ adv_close_exc fin0 ms3 σ3 _ e hp3 hs3, rfl, σ', below', rfl, ⟨ho, ?_, htags3.frame hq4 hn4, ?_, hf, ?_⟩⟩
+  · rw [hq4]; exact hhead
+  · rw [hq4]; exact hrel
+  · rw [hq4]; exact hlow
+
 end M5
 end TM
